@@ -117,8 +117,8 @@ def rule_end(ctx, M, u):
               site=cb.span if cb else u.body.span)
     ups = flow.counter_updates(bi, name)
     all_none = []
-    guard = flow.edges_where(bi, ft, "Eq", target)
-    not_all = flow.edges_where(bi, ft, "Ne", target)
+    guard = flow.edges_where(bi, ft, "Eq", target, bounded=True)
+    not_all = flow.edges_where(bi, ft, "Ne", target, bounded=True)
     tests = [e["block"] for e, o, x, y in flow.compare_tests(bi) if (x == ft and target(y)) or (y == ft and target(x))]
     pend = set(common.pending_blocks(bi))
     for c in u.cps:
